@@ -92,3 +92,44 @@ Definition row_w_retry (ic : N * wcase) :=
   (i, hb (wb a), hl (wb a), hs (wb a), hb (wb b), hl (wb b), hs (wb b)).
 
 Definition rows_w_retry (cs : list wcase) := map row_w_retry (index_from 0 cs).
+
+(* ---- any window: case = (prefix, base, repetitions, bs, streamed, H, a, b) with a / b = 0 for
+   "no -a" / "no -b" and k + 1 for the instant k.  Plain files run through Model/RetainSearch.v
+   (w_run2), streamed files through the linear-search driver (sw_run).
+   row = (index, messages, marks lag-free, marks H behind, derr x2, dlerr x2, dok lag-free) *)
+Definition w2case := (list (N * bool) * list (N * bool) * nat * N * bool * N * N * N)%type.
+Definition optZ (x : N) : option Z := if x =? 0 then None else Some (Z.of_N (x - 1)).
+
+Definition row_w2 (ic : N * w2case) :=
+  let '(i, c) := ic in
+  let '(pre, base, rep, bs, str, H, a, b) := c in
+  let lay := pre ++ repeat_list base rep in
+  let ms := layout_msgs bs lay in
+  let kw := a - 1 in
+  let n := (length ms - N.to_nat kw - 1)%nat in
+  if str then
+    let cf := {| pol := P_cur; streamed := true |} in
+    let x := sw_run cf ms (optZ a) (optZ b) (w_sched_lag 1 kw n) in
+    let y := sw_run cf ms (optZ a) (optZ b) (w_sched_lag H kw n) in
+    (i, lenN ms, hb x, hl x, hs x, hb y, hl y, hs y, derr x, derr y, 0, 0, dok x)
+  else
+    let cf := {| pol := P_cur; streamed := false |} in
+    let x := w_run2 cf bs ms (optZ a) (optZ b) (w_sched_lag 1 kw n) in
+    let y := w_run2 cf bs ms (optZ a) (optZ b) (w_sched_lag H kw n) in
+    (i, lenN ms, hb (wb x), hl (wb x), hs (wb x), hb (wb y), hl (wb y), hs (wb y),
+     derr (wb x), derr (wb y), dlerr x, dlerr y, dok (wb x)).
+
+Definition rows_w2 (cs : list w2case) := map row_w2 (index_from 0 cs).
+
+(* a plain file read from its start (no -a) through BOTH drivers: they must agree *)
+Definition row_w2_both (ic : N * w2case) :=
+  let '(i, c) := ic in
+  let '(pre, base, rep, bs, _, H, _, b) := c in
+  let lay := pre ++ repeat_list base rep in
+  let ms := layout_msgs bs lay in
+  let n := (length ms - 1)%nat in
+  let cf := {| pol := P_cur; streamed := false |} in
+  let x := w_run2 cf bs ms None (optZ b) (w_sched_lag H 0 n) in
+  let y := sw_run cf ms None (optZ b) (w_sched_lag H 0 n) in
+  (i, hb (wb x), hl (wb x), hs (wb x), hb y, hl y, hs y).
+Definition rows_w2_both (cs : list w2case) := map row_w2_both (index_from 0 cs).
